@@ -119,6 +119,14 @@ def body_log(B, I):
             raise Reject()
     elif not hi[c] > 0:
         raise Reject()
+    # documented replacement of a non-positive lower limit (decided first, while the path
+    # condition is still linear)
+    if bool(lo[c] <= 0):
+        H.mark('lower-limit-replaced')
+        hl = hi[c] / 1e5
+        low = 1.0 if bool(hl >= 1) else hl
+    else:
+        low = lo[c]
     r = catch(d.hist_bins, c, None if default_n else n, 'log')
     if r[0] != 'ok':
         return False, 'hist_bins(log) raised %s' % r[1], r[2]
@@ -133,13 +141,6 @@ def body_log(B, I):
         return False, 'log: edge not positive'
     if not (e0 < e1):
         return False, 'log: edges not strictly increasing'
-    # documented replacement of a non-positive lower limit
-    if bool(lo[c] <= 0):
-        H.mark('lower-limit-replaced')
-        hl = hi[c] / 1e5
-        low = 1.0 if bool(hl >= 1) else hl
-    else:
-        low = lo[c]
     # compared in log10 space (log10 is strictly increasing and inverts 10**)
     if not (np.log10(edge(B, bins, 0)) <= np.log10(low)) or \
             not (np.log10(hi[c]) <= np.log10(edge(B, bins, nn))):
@@ -207,8 +208,12 @@ def body_logicle(B, I):
     Rv = LOG_R[ch.pick(I['ri'], 0, 2 if default_n else 3)]
     I = dict(I, R0=Rv, R1=Rv)
     d, lo, hi, R = mk(B, I, events)
-    n, c = LOG_N[ch.pick(I['ni'], 0, 4)], ch.pick(I['c'], 0, 2)
+    c = ch.pick(I['c'], 0, 2)
+    n = None if default_n else LOG_N[ch.pick(I['ni'], 0, 4)]
+    nn = R[c] if default_n else n
     i = ch.pick(I['i'], 0, 8)
+    if not (0 <= i and i < nn):
+        raise Reject()               # edge index beyond the bin count: nothing to check
     kw = {}
     if I['ovT']:
         kw['T'] = H.real('oT')
@@ -243,11 +248,8 @@ def body_logicle(B, I):
     if r[0] != 'ok':
         return False, 'hist_bins(logicle) raised %s' % r[1], r[2]
     bins = r[1]
-    nn = R[c] if default_n else n
     if len(bins) != nn + 1:
         return False, 'logicle: not n+1 edges'
-    if not (0 <= i and i < nn):
-        raise Reject()
     T, M, W = logicle_params(B, d, c, lo, hi, events, kw)
     if B.kind == 'model':
         with ch.NoTracing():
@@ -288,13 +290,19 @@ LOG_R = [4, 8, 1000]
 LOG_N = [1, 2, 3, 8]
 
 
-def make_logicle(check_mono, ov=None):
+def make_logicle(check_mono, ov=None, c=None, dn=None):
     def make(env):
         install(env)
         scalars.CONFIG.axioms = {'pow10': (), 'log10': (), 'logicle_p': ()}
-        params = [('ri', 'int'), ('ni', 'int'), ('i', 'int'), ('c', 'int'), ('default_n', 'bool')]
-        pre = ['0 <= ri <= 2', '0 <= ni <= 3', '0 <= i <= 7', '0 <= c <= 1']
+        params = [('ri', 'int'), ('ni', 'int'), ('i', 'int')]
+        pre = ['0 <= ri <= 2', '0 <= ni <= 3', '0 <= i <= 7']
         consts = {'check_mono': check_mono}
+        if c is None:
+            params += [('c', 'int'), ('default_n', 'bool')]
+            pre.append('0 <= c <= 1')
+        else:
+            # same claim split into one job per (channel, default bin count or not)
+            consts.update({'c': c, 'default_n': dn})
         if check_mono:
             consts.update({'ovT': True, 'ovM': True, 'ovW': True, 'W0': False})
         else:
@@ -309,10 +317,13 @@ def make_logicle(check_mono, ov=None):
 def body_lists(B, I):
     """Several channels == per-channel answers in order; nbins/scale lists broadcast; unknown
     scale refused."""
-    d, lo, hi, R = mk(B, I)
-    SC = ['linear', 'log', 'bogus', 'Linear']
-    s0, s1 = SC[ch.pick(I['s0'], 0, 4)], SC[ch.pick(I['s1'], 0, 4)]
-    n0, n1 = ch.pick(I['n0'], 1, 4), ch.pick(I['n1'], 1, 4)
+    d, lo, hi, R = mk(B, I, [[1.0, 2.0], [3.0, 4.0]] if I.get('logicle') else None)
+    SC = ['linear', 'log', 'bogus', 'Linear', None, 'logicle']
+    if I.get('logicle'):
+        s0 = s1 = 'logicle'
+    else:
+        s0, s1 = SC[ch.pick(I['s0'], 0, 5)], SC[ch.pick(I['s1'], 0, 5)]
+    n0, n1 = (I['n0'], I['n1']) if I.get('logicle') else (ch.pick(I['n0'], 1, 3), ch.pick(I['n1'], 1, 3))
     order = [[0, 1], [1, 0], [NAMES[1], 0]][ch.pick(I['order'], 0, 3)]
     pos = [0 if o in (0, NAMES[0]) else 1 for o in order]
     if B.kind == 'model':
@@ -352,8 +363,16 @@ def make_lists(env):
     install(env)
     return cond_fn('bins_lists', [('s0', 'int'), ('s1', 'int'), ('n0', 'int'), ('n1', 'int'),
                                   ('order', 'int'), ('form', 'int')], body_lists,
-                   pre=['0 <= s0 <= 3 and 0 <= s1 <= 3', '1 <= n0 <= 3 and 1 <= n1 <= 3',
-                        '0 <= order <= 2', '0 <= form <= 2'], consts={'R0': 8, 'R1': 16})
+                   pre=['0 <= s0 <= 4 and 0 <= s1 <= 4', '1 <= n0 <= 2 and 1 <= n1 <= 2',
+                        '0 <= order <= 2', '0 <= form <= 2'], consts={'R0': 8, 'R1': 8})
+
+
+def make_lists_logicle(env):
+    install(env)
+    scalars.CONFIG.axioms = {'pow10': (), 'log10': (), 'logicle_p': ()}
+    return cond_fn('bins_lists_logicle', [('order', 'int'), ('form', 'int')], body_lists,
+                   pre=['0 <= order <= 2', '0 <= form <= 2'],
+                   consts={'R0': 8, 'R1': 8, 'logicle': True, 'n0': 2, 'n1': 2, 's0': 5, 's1': 5})
 
 
 def conditions(tier):
@@ -368,14 +387,22 @@ def conditions(tier):
         Cond('log_centred', make=make_log(True), replay=std_replay(body_log), timeout=600,
              modules=mods, doc='default n=R: log10 e(i) + log10 e(i+1) = 2(l0 + i(l1-l0)/(R-1))'),
     ] + [
-        Cond('logicle_grid_ov%d' % ov, make=make_logicle(False, ov),
+        Cond('logicle_grid_ov%d%s' % (ov, '' if c is None else '_c%d_%s' % (
+            c, 'defaultn' if dn else 'givenn')), make=make_logicle(False, ov, c, dn),
              replay=std_replay(body_logicle), timeout=600, modules=mods,
              doc='logicle edges = biexponential image of the uniform display grid from -d/2 to '
                  'M+d/2 with T, M, W from the documented rules or the overrides (T,M,W '
-                 'overridden: %s)' % format(ov, '03b')) for ov in range(8)
+                 'overridden: %s)' % format(ov, '03b'))
+        for ov in range(8)
+        # W derived from the events multiplies the paths: one job per channel and bin-count form
+        for (c, dn) in ([(None, None)] if ov & 1 else [(0, False), (0, True), (1, False),
+                                                        (1, True)])
     ] + [
         Cond('logicle_increasing', make=make_logicle(True), replay=std_replay(body_logicle),
              timeout=900, modules=mods, doc='logicle edges strictly increasing'),
+        Cond('lists_logicle', make=make_lists_logicle, replay=std_replay(body_lists), timeout=600,
+             modules=mods, doc='logicle scale, two channels of equal resolution and different '
+                               'ranges: list == per-channel answers'),
         Cond('lists', make=make_lists, replay=std_replay(body_lists), timeout=600, modules=mods,
              doc='list of channels == per-channel answers in order; per-channel nbins/scale '
                  'lists broadcast; unknown scale -> ValueError'),
